@@ -72,6 +72,7 @@ int  vs_nlocks(void);
 /* lock order edges: edge[a][b] != 0 when b was acquired while a held. value = mode bits */
 uint8_t vs_edge(int a, int b);
 const char *vs_edge_label(int a, int b);
+void vs_window(int on);                 /* 0: following choice points take the default and are not branch points (set-up / settle phases) */
 void vs_edges_reset(void);
 void vs_set_thread_label(int tid, const char *label);
 void vs_set_label(const char *label);   /* label attached to edges recorded from now on (calling thread) */
